@@ -125,6 +125,7 @@ EXPORT errno_t _wctomb_s_chk(int *restrict retvalp, char *restrict dest,
 {
     int len;
     errno_t rc;
+    char buf[MB_LEN_MAX]; /* libc stores up to MB_CUR_MAX bytes */
 #if defined(__CYGWIN__) && defined(__x86_64)
     mbstate_t st;
 #endif
@@ -148,13 +149,15 @@ EXPORT errno_t _wctomb_s_chk(int *restrict retvalp, char *restrict dest,
         }
     }
 
-    len = *retvalp = wctomb(dest, wc);
+    len = *retvalp = wctomb(dest ? buf : NULL, wc);
 
     if (likely(len > 0 && (rsize_t)len < dmax)) {
+        if (dest) {
+            memcpy(dest, buf, len);
 #ifdef SAFECLIB_STR_NULL_SLACK
-        if (dest)
             memset(&dest[len], 0, dmax - len);
 #endif
+        }
         rc = EOK;
     } else {
         /* errno is usually EILSEQ */
